@@ -1,11 +1,19 @@
 (* C11 -- guards of the theorems (definitions only; evaluated by the checks on implementation dumps). *)
-From SE Require Export C11.SubsModel.
+From SE Require Export C11.SubsModel Expr.ArithGuards.
 Local Open Scope Z_scope.
 
 (* std::map equivalence of two keys *)
 Definition key_equiv (a b : expr) : bool := negb (expr_keyless a b) && negb (expr_keyless b a).
 
-(* some key of the map is equivalent to a node on which the visitor looks the map up *)
+(* all nodes on which apply is called while visiting x: closure of [vchildren] *)
+Fixpoint vnodes (fuel : nat) (x : expr) : list expr :=
+  match fuel with
+  | O => [x]
+  | S f => x :: flat_map (vnodes f) (vchildren x)
+  end.
+Definition visited_nodes (x : expr) : list expr := vnodes (wsize x) x.
+
+(* the keys the visitor looks up in subs_dict_ while visiting x *)
 Definition lookups (x : expr) : list expr :=
   flat_map (fun n =>
     n :: match n with
@@ -13,23 +21,81 @@ Definition lookups (x : expr) : list expr :=
          | ENum k => match complex_parts k with Some _ => [I_expr] | None => [] end
          | _ => []
          end) (visited_nodes x).
+(* some key of the map is equivalent to one of them *)
 Definition occurs_any (sd : mdict) (x : expr) : bool :=
   existsb (fun n => existsb (fun kv => key_equiv (fst kv) n) sd) (lookups x).
 
-(* equivalent visited nodes (and keys) are syntactically equal: the hypothesis of cache irrelevance *)
-Fixpoint expr_seq (fuel : nat) (a b : expr) : bool :=
+(* syntactic equality of trees (Leibniz equality, decided) *)
+Definition num_syn_eqb (a b : number) : bool :=
+  match a, b with
+  | NInt x, NInt y => x =? y
+  | NRat x p, NRat y q => (x =? y) && (p =? q)%positive
+  | NCplx a1 a2 a3 a4, NCplx b1 b2 b3 b4 => (a1 =? b1) && (a2 =? b2)%positive && (a3 =? b3) && (a4 =? b4)%positive
+  | NDbl x, NDbl y => (x =? y)%N
+  | NCDbl x1 x2, NCDbl y1 y2 => (x1 =? y1)%N && (x2 =? y2)%N
+  | NInf x, NInf y => x =? y
+  | NNaN, NNaN => true
+  | _, _ => false
+  end.
+Fixpoint bytes_syn_eqb (a b : list N) : bool :=
+  match a, b with
+  | [], [] => true
+  | x :: a', y :: b' => (x =? y)%N && bytes_syn_eqb a' b'
+  | _, _ => false
+  end.
+Section ListEq.
+  Variable A : Type.
+  Variable eqA : A -> A -> bool.
+  Fixpoint list_syn_eqb (a b : list A) : bool :=
+    match a, b with
+    | [], [] => true
+    | x :: a', y :: b' => eqA x y && list_syn_eqb a' b'
+    | _, _ => false
+    end.
+End ListEq.
+Fixpoint syn_eqb (fuel : nat) (a b : expr) : bool :=
   match fuel with
   | O => false
   | S f =>
+      let r := syn_eqb f in
+      let rl := list_syn_eqb expr r in
+      let rp := list_syn_eqb (expr * expr) (fun p q => r (fst p) (fst q) && r (snd p) (snd q)) in
       match a, b with
-      | ENum x, ENum y => SE.Expr.Cmp.num_eqb x y && (hash a =? hash b)%N
+      | ENum x, ENum y => num_syn_eqb x y
+      | ESym x, ESym y => bytes_syn_eqb x y
+      | EDummy x i, EDummy y j => bytes_syn_eqb x y && (i =? j)%N
+      | EConst x, EConst y => bytes_syn_eqb x y
       | EAdd c1 d1, EAdd c2 d2 =>
-          SE.Expr.Cmp.num_eqb c1 c2 && (length d1 =? length d2)%nat &&
-          forallb (fun pq => expr_seq f (fst (fst pq)) (fst (snd pq)) && SE.Expr.Cmp.num_eqb (snd (fst pq)) (snd (snd pq)))
-                  (combine d1 d2)
-      | _, _ => expr_eqb a b
+          num_syn_eqb c1 c2 &&
+          list_syn_eqb (expr * number) (fun p q => r (fst p) (fst q) && num_syn_eqb (snd p) (snd q)) d1 d2
+      | EMul c1 d1, EMul c2 d2 => num_syn_eqb c1 c2 && rp d1 d2
+      | EPow b1 e1, EPow b2 e2 => r b1 b2 && r e1 e2
+      | EF1 c1 a1, EF1 c2 a2 => (c1 =? c2)%N && r a1 a2
+      | EF2 c1 a1 b1, EF2 c2 a2 b2 => (c1 =? c2)%N && r a1 a2 && r b1 b2
+      | EFN c1 l1, EFN c2 l2 => (c1 =? c2)%N && rl l1 l2
+      | EFunSym n1 l1, EFunSym n2 l2 => bytes_syn_eqb n1 n2 && rl l1 l2
+      | ELex c1 a1 b1, ELex c2 a2 b2 => (c1 =? c2)%N && r a1 a2 && r b1 b2
+      | EDeriv a1 l1, EDeriv a2 l2 => r a1 a2 && rl l1 l2
+      | ESubs a1 d1, ESubs a2 d2 => r a1 a2 && rp d1 d2
+      | EPw l1, EPw l2 => rp l1 l2
+      | EBool x, EBool y => Bool.eqb x y
+      | EInterval s1 e1 l1 r1, EInterval s2 e2 l2 r2 => r s1 s2 && r e1 e2 && Bool.eqb l1 l2 && Bool.eqb r1 r2
+      | EAtom c1, EAtom c2 => (c1 =? c2)%N
+      | _, _ => false
       end
   end.
+Definition expr_syn_eqb (a b : expr) : bool := syn_eqb (S (size a)) a b.
+
+(* equivalent nodes / keys are syntactically equal, the map is a sorted std::map with well-formed
+   keys and the visited nodes are well formed: the hypothesis of cache irrelevance *)
 Definition keys_consistent (sd : mdict) (x : expr) : bool :=
   let ns := visited_nodes x ++ map fst sd in
-  forallb (fun a => forallb (fun b => negb (key_equiv a b) || expr_seq (S (size a)) a b) ns) ns.
+  forallb (fun a => forallb (fun b => implb (key_equiv a b) (expr_syn_eqb a b)) ns) ns
+  && msorted sd && forallb (fun p => wf (fst p)) sd && forallb wf (visited_nodes x).
+
+(* the map is a single Pow key whose exponent is not an Add: the special case of SubsVisitor::bvisit(Pow) *)
+Definition single_pow_key (sd : mdict) : bool :=
+  match sd with
+  | [(EPow _ ke, _)] => match ke with EAdd _ _ => false | _ => true end
+  | _ => false
+  end.
